@@ -51,7 +51,7 @@ type shadow struct {
 	splitField map[int]bool // a slot of this field has points in more than one storage unit
 	// splitFlushField: ... in units separated by a flush (memory database / file / file)
 	splitFlushField map[int]bool
-	units      map[cellKey]unitTok
+	units           map[cellKey]unitTok
 	// flushedCell: cells of first/last fields that already live in a file (the generator does not
 	// write them again: the order in which several files are read is a map iteration order)
 	flushedCell map[cellKey]bool
